@@ -43,10 +43,19 @@ def _crystals():
     s["chainspec"] = (lambda: crystal.Crystal(np.diag([1., 3., 3.2]), [[_a(0, 0, 0)], [_a(.5, .2, 0)]]), 0, (1,))
     # two mobile chemistries, only chem 0 jumps
     s["chain2chem"] = (lambda: crystal.Crystal(np.diag([1., 3., 3.2]), [[_a(0, 0, 0)], [_a(.5, .2, 0)]]), 0, ())
+    # variants in which some mobile sites carry NO interaction (see OPTIONS): the second mobile sublattice is excluded from
+    # the cluster expansion / the expansion is empty (constant only) / every cluster needs an occupied spectator site
+    s["b2mobx"] = (lambda: crystal.Crystal(np.eye(3), [[_a(0, 0, 0)], [_a(.5, .5, .5)]]), 0, ())
+    s["chain2chemx"] = s["chain2chem"]
+    s["chainempty"] = s["chain"]
+    s["chainspecoff"] = s["chainspec"]
     return s
 
 
 CRYSTALS = _crystals()
+OPTIONS = {"b2mobx": dict(exclude=(1,)), "chain2chemx": dict(exclude=(1,)), "chainempty": dict(empty=True, nojumps=True),
+           "chainspecoff": dict(spec_only=True, nojumps=True)}
+ZERO_INTERACTION = ["b2mobx", "chain2chemx", "chainempty", "chainspecoff"]
 
 # name -> (cluster cutoff, max order, jump cutoff, list of superlattices (diagonal tuples or full matrices))
 SETUPS = {
@@ -65,6 +74,10 @@ SETUPS = {
     "b2spec": [(1.01, 3, 1.01)],
     "chainspec": [(1.1, 3, 1.1)],
     "chain2chem": [(1.1, 3, 1.1)],
+    "b2mobx": [(1.01, 3, 1.01), (1.01, 2, 1.01)],
+    "chain2chemx": [(1.1, 3, 1.1)],
+    "chainempty": [(1.1, 2, 1.1)],
+    "chainspecoff": [(1.1, 3, 1.1)],
 }
 
 SUPERS = {
@@ -83,6 +96,10 @@ SUPERS = {
     "b2spec": [(2, 2, 2), (2, 2, 1), (3, 2, 2)],
     "chainspec": [(4, 1, 1), (6, 1, 1), (3, 1, 1)],
     "chain2chem": [(3, 1, 1), (4, 1, 1), (5, 1, 1)],
+    "b2mobx": [(2, 2, 1), (2, 2, 2), (2, 1, 1)],
+    "chain2chemx": [(3, 1, 1), (4, 1, 1), (5, 1, 1)],
+    "chainempty": [(3, 1, 1), (6, 1, 1)],
+    "chainspecoff": [(4, 1, 1), (6, 1, 1), (8, 1, 1)],
 }
 
 
@@ -105,6 +122,8 @@ def build(rng, name, setup=None, sup=None, vacancy=False, jumps=False, ts=False,
     mk, chem, spect = CRYSTALS[name]
     if name not in _CRYS_CACHE: _CRYS_CACHE[name] = mk()      # Crystal() is slow for elongated cells (BZ construction)
     crys = _CRYS_CACHE[name]
+    opt = OPTIONS.get(name, {})
+    if opt.get("nojumps") and jumps: return None      # (the jump evaluators need a cluster on every jumping site)
     cutoff, order, jcut = setup if setup is not None else rng.choice(SETUPS[name])
     sl = superlatt(sup if sup is not None else rng.choice(SUPERS[name]))
     S = System()
@@ -118,7 +137,11 @@ def build(rng, name, setup=None, sup=None, vacancy=False, jumps=False, ts=False,
         cand = [n for n in range(S.Nsites) if S.sup.ciR(n)[0][0] == chem]
         S.vacancy = int(vac_index if vac_index is not None else rng.choice(cand))
         S.sup.addvacancy(S.vacancy)
-    if (name, cutoff, order) not in _CLUSTER_CACHE: _CLUSTER_CACHE[name, cutoff, order] = cluster.makeclusters(crys, cutoff, order)
+    if (name, cutoff, order) not in _CLUSTER_CACHE:
+        cl = cluster.makeclusters(crys, cutoff, order, exclude=opt.get("exclude", ()))
+        if opt.get("empty"): cl = []
+        if opt.get("spec_only"): cl = [c for c in cl if any(site.ci[0] in spect for site in next(iter(c)))]
+        _CLUSTER_CACHE[name, cutoff, order] = cl
     bare = _CLUSTER_CACHE[name, cutoff, order]
     S.clusterexp = list(bare)
     S.vacclusters = []
@@ -156,6 +179,12 @@ def build(rng, name, setup=None, sup=None, vacancy=False, jumps=False, ts=False,
                                          "-vac%d" % S.vacancy if vacancy else "", "-jn%g" % jcut if jumps else "",
                                          "-ts" if ts and len(S.TSclusters) else "")
     S.MC = sampler(S)
+    if opt.get("spec_only"):
+        # make sure the spectator occupation leaves at least one mobile site without any interaction
+        for _ in range(20):
+            if any(n == 0 for i, n in enumerate(S.MC.Ninteract) if i != S.vacancy): break
+            S.socc = np.array([1 if rng.random() < 0.4 else 0 for _ in S.socc], dtype=int)
+            S.MC = sampler(S)
     return S
 
 
